@@ -20,17 +20,45 @@ import (
 )
 
 type condHeld struct {
-	sym  int    // held iff sym is nil
-	site string // where acquired
+	sym   int    // held iff sym is nil
+	site  string // where acquired
+	txSym int    // symbol of the transaction pointer handed out (pq level)
 }
 
 type lockProp struct {
 	n     map[string]int
 	flock int // 0 not attempted; >0 held iff sym nil; -1 released
+	mmap  int // same encoding for the memory mapping of the file
 	pqtx  []condHeld
 }
 
 func newLockProp() *lockProp { return &lockProp{n: map[string]int{}} }
+
+// resolved states of a conditionally held resource
+const (
+	resReleased = -1
+	resHeld     = -2
+	resFailed   = -3
+)
+
+// learnNil moves the outcome of Lock()/MMap()/Begin() into the property state as soon as the error's
+// nil-ness is decided by a branch.
+func (l *locksPlugin) learnNil(st *State, sym int, isNil bool) {
+	p, ok := st.prop.(*lockProp)
+	if !ok {
+		return
+	}
+	res := resFailed
+	if isNil {
+		res = resHeld
+	}
+	if p.flock == sym {
+		p.flock = res
+	}
+	if p.mmap == sym {
+		p.mmap = res
+	}
+}
 
 func (p *lockProp) Key() string {
 	ks := []string{}
@@ -40,7 +68,7 @@ func (p *lockProp) Key() string {
 		}
 	}
 	sort.Strings(ks)
-	s := strings.Join(ks, ",") + fmt.Sprintf(";fl=%d;", p.flock)
+	s := strings.Join(ks, ",") + fmt.Sprintf(";fl=%d;mm=%d;", p.flock, p.mmap)
 	for _, t := range p.pqtx {
 		s += fmt.Sprintf("tx%d,", t.sym)
 	}
@@ -48,7 +76,7 @@ func (p *lockProp) Key() string {
 }
 
 func (p *lockProp) Clone() PropState {
-	n := &lockProp{n: make(map[string]int, len(p.n)), flock: p.flock, pqtx: append([]condHeld(nil), p.pqtx...)}
+	n := &lockProp{n: make(map[string]int, len(p.n)), flock: p.flock, mmap: p.mmap, pqtx: append([]condHeld(nil), p.pqtx...)}
 	for k, v := range p.n {
 		n.n[k] = v
 	}
@@ -58,7 +86,7 @@ func (p *lockProp) Clone() PropState {
 func (p *lockProp) held() []string {
 	var h []string
 	for k, v := range p.n {
-		if v > 0 {
+		if v > 0 && k != "bgwriter" {
 			h = append(h, k)
 		}
 	}
@@ -83,6 +111,8 @@ type locksVocab struct {
 	lockFns   map[*ssa.Function][2]string // fn -> (class, "lock"|"unlock")
 	osfsLock  *ssa.Function
 	osfsUnlk  *ssa.Function
+	osfsMMap, osfsMUnmap   *ssa.Function
+	writerInit, writerStop *ssa.Function
 	lockMu    *types.Var
 	lockRes   *types.Var
 	writerMux *types.Var
@@ -99,6 +129,10 @@ func newLocksVocab(p *Program) *locksVocab {
 	}
 	v.osfsLock = p.Method("internal/vfs/osfs", "File", "Lock")
 	v.osfsUnlk = p.Method("internal/vfs/osfs", "File", "Unlock")
+	v.osfsMMap = p.Method("internal/vfs/osfs", "File", "MMap")
+	v.osfsMUnmap = p.Method("internal/vfs/osfs", "File", "MUnmap")
+	v.writerInit = p.Method("txfile", "writer", "Init")
+	v.writerStop = p.Method("txfile", "writer", "Stop")
 	v.lockMu = p.FieldVar("txfile", "lock", "mu")
 	v.lockRes = p.FieldVar("txfile", "lock", "reserved")
 	v.writerMux = p.FieldVar("txfile", "writer", "mux")
@@ -108,7 +142,7 @@ func newLocksVocab(p *Program) *locksVocab {
 	for _, n := range []string{"File", "Tx", "Page", "lock", "writer", "waLog", "allocator"} {
 		v.named[n] = p.Named("txfile", n)
 	}
-	seeds := map[*ssa.Function]bool{v.osfsLock: true, v.osfsUnlk: true}
+	seeds := map[*ssa.Function]bool{v.osfsLock: true, v.osfsUnlk: true, v.osfsMMap: true, v.osfsMUnmap: true, v.writerInit: true, v.writerStop: true}
 	for fn := range v.lockFns {
 		seeds[fn] = true
 	}
@@ -130,7 +164,7 @@ func newLocksVocab(p *Program) *locksVocab {
 					continue
 				}
 				rt, m := c.Common().Value.Type(), c.Common().Method.Name()
-				if isNamed(rt, "sync", "Locker") || isNamed(rt, modPath+"/internal/vfs", "File") && (m == "Lock" || m == "Unlock") ||
+				if isNamed(rt, "sync", "Locker") || isNamed(rt, modPath+"/internal/vfs", "File") && (m == "Lock" || m == "Unlock" || m == "MMap" || m == "MUnmap") ||
 					isNamed(rt, modPath+"/pq", "Delegate") && strings.HasPrefix(m, "Begin") {
 					seeds[fn] = true
 				}
@@ -155,6 +189,8 @@ type locksPlugin struct {
 	events   int
 	newTx    *ssa.Function
 	onNewTx  func(in *Interp, fs *FState, site ssa.Instruction)
+	fileBegins map[*ssa.Function]bool // pq level: txfile.File.Begin* are acquisitions too
+	storedTx   map[int]string         // error symbol of a Begin -> "Owner.field" the transaction was stored into
 }
 
 func newLocksPlugin(v *locksVocab, role string) *locksPlugin {
@@ -301,6 +337,22 @@ func (l *locksPlugin) OnCall(in *Interp, fs *FState, site ssa.Instruction, calle
 			lp(fs).flock = -1
 			l.events++
 			return true, in.top()
+		case callee == l.voc.osfsMMap:
+			return true, l.mmapAcquire(in, fs)
+		case callee == l.voc.osfsMUnmap:
+			lp(fs).mmap = -1
+			return true, in.top()
+		case callee == l.voc.writerInit:
+			lp(fs).n["bgwriter"]++
+			return false, nil
+		case callee == l.voc.writerStop:
+			if lp(fs).n["bgwriter"] > 0 {
+				lp(fs).n["bgwriter"]--
+			}
+			return false, nil
+		}
+		if l.pqLevel && l.fileBegins[callee] {
+			return true, l.pqBegin(in, fs, site, callee.Name(), callee.Signature.Results().At(0).Type())
 		}
 		if l.pqLevel {
 			if m, ok := l.voc.txClose[callee]; ok {
@@ -333,16 +385,37 @@ func (l *locksPlugin) OnCall(in *Interp, fs *FState, site ssa.Instruction, calle
 		return true, in.top()
 	case isNamed(recvT, modPath+"/internal/vfs", "File") && m.Name() == "Lock":
 		return true, l.flockAcquire(in, fs)
+	case isNamed(recvT, modPath+"/internal/vfs", "File") && m.Name() == "MMap":
+		return true, l.mmapAcquire(in, fs)
+	case isNamed(recvT, modPath+"/internal/vfs", "File") && m.Name() == "MUnmap":
+		lp(fs).mmap = -1
+		return true, in.top()
 	case isNamed(recvT, modPath+"/pq", "Delegate") && strings.HasPrefix(m.Name(), "Begin"):
-		errSym := in.symAt(in.instrTag())
-		l.events++
-		l.acquired["pqtx"]++
-		p := lp(fs)
-		p.pqtx = append(p.pqtx, condHeld{sym: errSym, site: in.P.InstrPos(site) + " " + m.Name() + " in " + funcName(site.Parent())})
-		txv := in.unknown(c.Common().Signature().Results().At(0).Type())
-		return true, TupleV{[]Value{txv, Top{errSym}}}
+		return true, l.pqBegin(in, fs, site, m.Name(), c.Common().Signature().Results().At(0).Type())
 	}
 	return false, nil
+}
+
+func (l *locksPlugin) pqBegin(in *Interp, fs *FState, site ssa.Instruction, name string, txType types.Type) Value {
+	errSym := in.symAt(in.instrTag())
+	l.events++
+	l.acquired["pqtx"]++
+	p := lp(fs)
+	txv := in.unknown(txType)
+	txSym := 0
+	if pv, ok := txv.(PtrV); ok {
+		txSym = pv.sym
+		// the transaction is non-nil exactly when the error is nil; keep it simple: non-nil
+		fs.st.nilF[pv.sym] = 2
+	}
+	p.pqtx = append(p.pqtx, condHeld{sym: errSym, site: in.P.InstrPos(site) + " " + name + " in " + funcName(site.Parent()), txSym: txSym})
+	return TupleV{[]Value{txv, Top{errSym}}}
+}
+
+func (l *locksPlugin) mmapAcquire(in *Interp, fs *FState) Value {
+	errSym := in.symAt(in.instrTag())
+	lp(fs).mmap = errSym
+	return TupleV{[]Value{in.nonNil(), Top{errSym}}}
 }
 
 func (l *locksPlugin) flockAcquire(in *Interp, fs *FState) Value {
@@ -350,7 +423,7 @@ func (l *locksPlugin) flockAcquire(in *Interp, fs *FState) Value {
 	p := lp(fs)
 	l.events++
 	l.acquired["flock"]++
-	if p.flock > 0 && fs.st.nilF[p.flock] != 2 {
+	if p.flock == resHeld || (p.flock > 0 && fs.st.nilF[p.flock] != 2) {
 		// second Lock while possibly held: osfs reports errAlreadyLocked; state unchanged
 		return r
 	}
@@ -434,6 +507,22 @@ func (l *locksPlugin) onSkip(in *Interp, fs *FState, site ssa.Instruction, calle
 
 func (l *locksPlugin) OnStore(in *Interp, fs *FState, instr ssa.Instruction, c *Cell, v Value) {
 	l.recordAccess(in, fs, instr, c, true)
+	if l.pqLevel && c.fvar != nil && c.lazy {
+		if pv, ok := v.(PtrV); ok && pv.sym != 0 {
+			for _, t := range lp(fs).pqtx {
+				if t.txSym == pv.sym {
+					if l.storedTx == nil {
+						l.storedTx = map[int]string{}
+					}
+					owner := ""
+					if n, ok := c.parent.typ.(*types.Named); ok {
+						owner = n.Obj().Name()
+					}
+					l.storedTx[t.sym] = owner + "." + c.fvar.Name()
+				}
+			}
+		}
+	}
 }
 
 func (l *locksPlugin) OnLoad(in *Interp, fs *FState, instr ssa.Instruction, c *Cell) {
